@@ -294,7 +294,7 @@ def opaque(interp, fname, args, kwargs=None, tag="object", rsort=None):
     for k in sorted(kwargs or {}):
         ts.append(_arg_term(interp, kwargs[k]))
         name += f",{k}="
-    rs = rsort or OBJ
+    rs = OBJ if rsort is None else rsort
     f = z3.Function(f"{name}[{','.join(str(t.sort()) for t in ts)}]", *([t.sort() for t in ts] + [rs]))
     term = f(*ts) if ts else z3.Const(name + "()", rs)
     interp.ctx.assumed.add(f"extern:{fname} (opaque deterministic function of its arguments)")
